@@ -109,6 +109,24 @@ PROPS["C13"] = {
 }
 
 
+PROPS["C02"] = {
+    "module": "PropC02",
+    "theorems": ["C02_no_panic", "C02_only_filter_errors", "C02_sizes_ordered", "C02_aliases_total", "C02_index_in_bounds"],
+    "runs": [NAMES_RUN, detect_run("C02", 220, 4000, bigq=1, bigt=8),
+             {"level": "total", "args_quick": ["--n", "160", "--big", "2"], "args_thorough": ["--n", "3000", "--big", "12"]}],
+    "search": {"level": "total", "args": ["--n", "1500", "--big", "6"]},
+    "rule": DETECT_RULE + "; plus the `total` level: the same case stream with a trace-level logger installed (forces the library to "
+            "evaluate its log arguments), every accessor / lookup by 76 names / indexing of every result under catch_unwind, the "
+            "decode helper in 3 traps x test-only x chunk mode and the encode helper in 4 traps on random, re-encoded and corpus bytes "
+            "for every supported encoding, iana_name on random strings, from_path on four failure kinds; ill-formed settings "
+            "(steps = 0) are run on both sides to check that panics are modelled",
+    "assumptions": ["steps >= 1 (the property's well-formedness); steps*chunk_size overflow is outside the model (unbounded N)",
+                    "panics inside the codec crate, ICU, regex, unicode_names2, allocation and logging are outside the model; "
+                    "they are covered only by the catch_unwind search"],
+    "trusted": [],
+}
+
+
 def _tok(line):
     return line.split(" ")
 
